@@ -117,7 +117,20 @@ impl Core {
         self.pool.pool.verif_digest(h);
         self.votor.verif_digest(h);
         for e in &self.q {
-            format!("{e:?}").hash(h);
+            // canonical bytes: the Debug form of a certificate contains the heap address of its bitmask
+            match e {
+                PoolEvent::CertCreated(c) => (0u8, wincode::serialize(c).expect("ser")).hash(h),
+                PoolEvent::Standstill(s, certs, votes) => {
+                    (1u8, s).hash(h);
+                    for c in certs {
+                        wincode::serialize(c).expect("ser").hash(h);
+                    }
+                    for v in votes {
+                        wincode::serialize(v).expect("ser").hash(h);
+                    }
+                }
+                other => (2u8, format!("{other:?}")).hash(h),
+            }
         }
         self.timers.hash(h);
         self.first_shred.hash(h);
